@@ -11,11 +11,11 @@ FUNCTIONS = [("pandapower.build_gen", "_build_gen_ppc"), ("pandapower.build_gen"
              ("pandapower.build_gen", "_build_pp_pq_element"), ("pandapower.build_gen", "add_p_constraints"), ("pandapower.build_gen", "add_q_constraints"),
              ("pandapower.build_gen", "_check_gen_vm_limits"), ("pandapower.build_gen", "_enforce_controllable_vm_pu_p_mw"),
              ("pandapower.results_bus", "write_pq_results_to_element"), ("pandapower.pypower.opf_setup", "opf_setup"), ("pandapower.build_branch", "_calc_line_parameter"), ("pandapower.build_branch", "_calc_trafo_parameter"), ("pandapower.pypower.makeBdc", "makeBdc")]
-STUBS = ["opf_model (the container opf_setup fills) -> a recorder of the variable bounds and linear constraint blocks", "the interior point solver's contract: on convergence the returned point lies inside the ppc box (PMIN<=PG<=PMAX, QMIN<=QG<=QMAX, "
+STUBS = ["dcline instance: create_gen -> a recorder of its keyword arguments (contract: create_gen stores them in the new gen row)", "opf_model (the container opf_setup fills) -> a recorder of the variable bounds and linear constraint blocks", "the interior point solver's contract: on convergence the returned point lies inside the ppc box (PMIN<=PG<=PMAX, QMIN<=QG<=QMAX, "
          "VMIN<=VM<=VMAX); the point is symbolic and constrained only by that box"]
 ASSUMPTIONS = ["declared limits symbolic with min <= max; delta = 1e-10 (the repository's OPF tolerance widening)",
                "gen voltage limits inside the bus voltage limits (the documented consistent case; the inconsistent case only logs a warning)"]
-OUTSIDE = ["AC branch loading limits (nonlinear constraint functions inside PIPS)", "optimality", "PowerModels", "dcline constraint row (needs the om object)",
+OUTSIDE = ["AC branch loading limits (nonlinear constraint functions inside PIPS)", "optimality", "PowerModels", "dcline constraint row (needs the om object); reading the dcline results back from the auxiliary generators",
            "'a power flow with the OPF dispatch reproduces the results' (iterative)"]
 BOUNDS = {"quick": "ext_grid + 2 gens (controllable / not) + controllable sgen, load, storage; every declared p/q/vm limit symbolic; DC OPF flow constraints of the real opf_setup on 3 buses with a line and a phase shifting transformer (2 orientations)", "thorough": "same"}
 _NET = {}
@@ -227,8 +227,43 @@ def make_branch_ratings():
     return fn
 
 
+def make_dcline_aux_gens():
+    """dc line in the OPF: the two auxiliary generators that stand for the terminals carry the declared reactive window of *their* terminal
+    and the active power window [0, max_p_mw] in the direction of the set point - the real _add_dcline_gens (with create_gen) on symbolic limits"""
+    def fn(ctx):
+        aux = ctx.load("pandapower.auxiliary")
+        net = pp.create_empty_network()
+        b = [pp.create_bus(net, 110.) for _ in range(3)]
+        pp.create_gen(net, b[2], 1., min_q_mvar=-3., max_q_mvar=3.)
+        pp.create_dcline(net, b[0], b[1], p_mw=5., loss_percent=1., loss_mw=0.1, vm_from_pu=1.01, vm_to_pu=1.02)
+        L = {c: ctx.var(c, -50., 50.) for c in ("min_q_from_mvar", "max_q_from_mvar", "min_q_to_mvar", "max_q_to_mvar")}
+        L["max_p_mw"] = ctx.var("max_p_mw", 1., 100.)
+        for c, v in L.items():
+            setcol(ctx, net.dcline, c, [v])
+        import pandapower.create as cr
+        rows = []
+        real = cr.create_gen
+        cr.create_gen = lambda net_, **kw: rows.append(kw)       # contract stub: create_gen stores the keyword values in the new row
+        try:
+            aux._add_dcline_gens(net)
+        finally:
+            cr.create_gen = real
+        ctx.true("two_auxiliary_generators", len(rows) == 2)
+        g_to = [r for r in rows if r["bus"] == b[1]][0]
+        g_from = [r for r in rows if r["bus"] == b[0]][0]
+        for side, g in (("from", g_from), ("to", g_to)):
+            ctx.eq(f"aux_gen_{side}_min_q_is_declared_min_q_{side}", g["min_q_mvar"], L[f"min_q_{side}_mvar"])
+            ctx.eq(f"aux_gen_{side}_max_q_is_declared_max_q_{side}", g["max_q_mvar"], L[f"max_q_{side}_mvar"])
+        ctx.eq("aux_gen_to_max_p_is_declared_max_p", g_to["max_p_mw"], L["max_p_mw"])
+        ctx.eq("aux_gen_from_min_p_is_minus_declared_max_p", g_from["min_p_mw"], -L["max_p_mw"])
+        ctx.eq("aux_gen_to_voltage_set_point", g_to["vm_pu"] * L["max_p_mw"], L["max_p_mw"] * 1.02)
+        ctx.eq("aux_gen_from_voltage_set_point", g_from["vm_pu"] * L["max_p_mw"], L["max_p_mw"] * 1.01)
+    return fn
+
+
 def instances(tier):
     out = [Inst("limits_round_trip", make_fn(), nvars=80, samples=2, timeout_ms=60000, meta=dict(elements="ext_grid, gen x2, sgen, load, storage"))]
+    out.append(Inst("dcline_auxiliary_generator_limits", make_dcline_aux_gens(), nvars=10, samples=3, meta=dict(part="dc line terminals: declared q / p windows reach the auxiliary generators")))
     out.append(Inst("branch_flow_limits", make_branch_ratings(), nvars=24, samples=3, raises=(UserWarning,), meta=dict(part="branch loading limits: RATE_A of lines and transformers")))
     lays = {"line_and_phase_shifter": [(0, 1, "l"), (1, 2, "t")], "phase_shifter_reversed": [(0, 1, "l"), (2, 1, "t")]}
     if tier == "thorough":
